@@ -245,6 +245,48 @@ func c17boundaryIDs(rep *vh.Report) {
 	}
 }
 
+// ids above 2^24-1 (GetID returns a uint32; such ids never travel, but a table that takes them must treat them like any
+// other): found under their own id only, and two messages that share one are a duplicate like any other
+type MessageVfIdWide struct{ A uint8 }
+
+func (*MessageVfIdWide) GetID() uint32 { return 1<<24 + 30 }
+
+type MessageVfIdWideDup struct{ B uint16 }
+
+func (*MessageVfIdWideDup) GetID() uint32 { return 1<<24 + 30 }
+
+func c17wideIDs(rep *vh.Report) {
+	base := []message.Message{&common.MessageHeartbeat{}, &common.MessageAttitude{}, &MessageVfIdWide{}}
+	rw := &dialect.ReadWriter{Dialect: &dialect.Dialect{Version: 1, Messages: base}}
+	rep.Eval(1)
+	if err, p := safeInit(rw); err != nil || p != nil {
+		rep.Observe(fmt.Sprintf("a user dialect with a message id above 2^24-1 is refused by Initialize: %v %v", err, p))
+		return
+	}
+	rep.Count("wide_id_dialects", 1)
+	for _, id := range []uint32{30, 1 << 24, 1<<24 + 30, 1<<24 + 31, 1<<25 + 30} {
+		got := rw.GetMessage(id)
+		var want reflect.Type
+		switch id {
+		case 30:
+			want = reflect.TypeOf(&common.MessageAttitude{})
+		case 1<<24 + 30:
+			want = reflect.TypeOf(&MessageVfIdWide{})
+		}
+		if (want == nil) != (got == nil) || (got != nil && reflect.TypeOf(got.Message) != want) {
+			rep.Violation("dialect=user what=lookup", fmt.Sprintf("dialect {0, 30, 2^24+30}: GetMessage(%d) returns %v", id, got), nil)
+		}
+	}
+	for pos := 0; pos <= len(base); pos++ {
+		dup := append(append(append([]message.Message{}, base[:pos]...), &MessageVfIdWideDup{}), base[pos:]...)
+		rep.Eval(1)
+		if err, p := safeInit(&dialect.ReadWriter{Dialect: &dialect.Dialect{Version: 1, Messages: dup}}); p != nil || err == nil {
+			rep.Violation("dialect=user what=accepts:duplicate-id", fmt.Sprintf("a dialect with two messages of id 2^24+30 was accepted by Initialize (duplicate inserted at position %d; panic: %v)", pos, p), nil)
+			break
+		}
+	}
+}
+
 func c17twinPackage(rep *vh.Report, r *vh.RNG) {
 	twins := []message.Message{&twincommon.MessageHeartbeat{}, &twincommon.MessageDebug{}, &twincommon.MessageParamRequestRead{}}
 	for round := 0; round < 2; round++ {
@@ -526,6 +568,7 @@ func TestC17(t *testing.T) {
 	// used after (and next to) the shipped dialects in this process: lookups return the codec of *that* type
 	c17twinPackage(rep, r)
 	c17boundaryIDs(rep)
+	c17wideIDs(rep)
 
 	// rejection at Initialize
 	bad := malformed()
